@@ -54,7 +54,9 @@ def generate(seed: int, tier: str, index: int) -> dict:
     # eight slots: four hostile cells, one storage run and three light runs (inject, manage or race, inject) - the
     # hostile cells cost seconds each, the light families fractions of a second
     slot = index % 8
-    family = ["hostile", "hostile", "hostile", "hostile", "storage", "inject", "light", "inject"][slot]
+    family = ["hostile", "hostile", "hostile", "hostile", "storage", "inject", "light", "light2"][slot]
+    if family == "light2":
+        family = "inject" if (index // 8) % 2 else "light"
     spec = {"property": ID, "seed": seed, "index": index, "tier": tier, "hashseed": index % base.HASHSEEDS,
             "t0_us": simclock.SimClock.parse(rng.choice(mc.T0_CHOICES)), "sched_seed": rng.getrandbits(32),
             "family": family, "actors": []}
@@ -84,7 +86,7 @@ def generate(seed: int, tier: str, index: int) -> dict:
             script.append({"op": "exercise"})
         spec["actors"] = [{"id": "storage", "kind": "storage", "role": "media", "prng": rng.getrandbits(32),
                            "script": script}]
-    elif family == "light" and (index // 8) % 2 == 0:
+    elif family == "light" and slot == 7:
         # legitimate management sequences (the C17 workload) under this property's oracle: an authorised, well-formed
         # request never answers 5xx either
         from . import c17
@@ -96,7 +98,7 @@ def generate(seed: int, tier: str, index: int) -> dict:
         from . import c17
         spec["family"] = "race"
         spec["world"] = {"variant": "full"}
-        spec["actors"] = c17.generate_burst(seed, tier, index)["actors"]
+        spec["actors"] = c17.generate_burst(seed, tier, index, bursts=(2, 3, 4), conflict_p=0.7)["actors"]
         for a in spec["actors"]:
             a["check_orders"] = False      # only the responses of the burst are judged here
     else:
